@@ -7,7 +7,8 @@
 (* design-level statement of C04.                                             *)
 EXTENDS PickleVM, Verdict
 
-CONSTANT PollutedDedup     \* TRUE: BadCalls registers every call text before OvertlyBadEvals looks (the pinned defect)
+CONSTANTS PollutedDedup,    \* TRUE: BadCalls registers every call text before OvertlyBadEvals looks (the pinned defect)
+          BadCallsExempt    \* TRUE: BadCalls also skips calls whose name is bound by a standard-library import (a mutated design)
 
 IsStd(m) == ModCat(m) \in {"benign_std", "dangerous"} /\ m \notin {"dill", "dill._dill", "torch.hub", "torch.hub.x"}
 Emitted(e) == e.e = "import" /\ e.m # "builtins"          \* the decompiler emits no import for builtins
@@ -17,9 +18,10 @@ NonStd(e)        == IF Emitted(e) /\ ~IsStd(e.m) THEN LIKELY_UNSAFE ELSE LIKELY_
 \* UnsafeImportsML (module or a parent in UNSAFE_MODULES; the name `eval`) and UnsafeImports
 UnsafeImport(e)  == IF Emitted(e) /\ (ModCat(e.m) = "dangerous" \/ e.n = "eval") THEN LIKELY_OVERTLY_MALICIOUS ELSE LIKELY_SAFE
 \* BadCalls: the call text starts with exec( eval( compile( open(  -- the bare name, whatever the module
-BadCall(e)       == IF e.e = "call" /\ e.f.k = "g" /\ e.f.n \in Evalish THEN OVERTLY_MALICIOUS ELSE LIKELY_SAFE
 \* OvertlyBadEvals: every other call whose name is not bound by a standard-library import
 Exempt(e)        == e.f.k = "g" /\ e.f.m # "builtins" /\ IsStd(e.f.m)
+BadCall(e)       == IF e.e = "call" /\ e.f.k = "g" /\ e.f.n \in Evalish /\ ~(BadCallsExempt /\ Exempt(e))
+                    THEN OVERTLY_MALICIOUS ELSE LIKELY_SAFE
 OvertlyBad(e)    == IF e.e # "call" \/ Exempt(e) THEN LIKELY_SAFE
                     ELSE IF e.f.k = "g" /\ e.f.n \in Evalish THEN OVERTLY_MALICIOUS
                     ELSE IF PollutedDedup THEN LIKELY_SAFE          \* "already reported" by BadCalls' bookkeeping
